@@ -90,7 +90,8 @@ namespace sim
             errno = EIO;
             return -1;
          }
-         const std::size_t remaining = W.xlen - ( c->pos < W.xlen ? c->pos : W.xlen );
+         const std::size_t real_len = W.xlen - ( W.short_by < W.xlen ? W.short_by : W.xlen );  // seek still reports W.xlen
+         const std::size_t remaining = real_len - ( c->pos < real_len ? c->pos : real_len );
          std::size_t n = next_chunk( size );
          if( n > remaining ) {
             n = remaining;
